@@ -62,14 +62,14 @@ def run(tier, seed):
     exh = [c for c in cases if c["cid"] <= len(cases) - int(args[5])]
     distinct = len({json.dumps([c["n"], c["edges"]]) for c in cases if c["edges"]})
     samples = [{"n": c["n"], "edges": c["edges"], "kruskal": c.get("kruskal"), "topo": c.get("topo")} for c in cases[::max(1, len(cases) // 6)]][:6]
-    rep.add(evaluations=len(cases) * 24, distinct_nontrivial=distinct, samples=samples,
+    rep.add(evaluations=len(cases) * 26, distinct_nontrivial=distinct, samples=samples,
             cases=len(cases), exhaustive_cases=len(exh), random_cases=int(args[5]),
             by_nodes_edges={f"{n}n{m}e": v for (n, m), v in sorted(sizes.items())},
-            rule="evaluations = graphs x 24 algorithm parts (each part quantifies over every source / target); distinct = distinct non-empty graphs. exhaustive part: every multiset of <= mmax edges over all ordered node pairs (self-loops included) x weight class {1, 2, missing} "
+            rule="evaluations = graphs x 26 algorithm parts (each part quantifies over every source / target); distinct = distinct non-empty graphs. exhaustive part: every multiset of <= mmax edges over all ordered node pairs (self-loops included) x weight class {1, 2, missing} "
                  f"for n <= {args[1]} nodes, mmax = {args[3]}; random part: n <= {args[7]}, m <= {args[9]}, weights {{missing, 0, 1, 2, 3}}; "
                  "int and float weight encodings alternate; a signed weight in -1..3 per edge for Bellman-Ford",
             exhaustive=False,
-            parts=["dijkstra", "bellman_ford", "floyd_warshall", "dijkstra_path", "floyd_warshall_path", "bellman_ford_path", "astar", "bellman_ford_negative", "connected_components",
+            parts=["dijkstra", "bellman_ford", "floyd_warshall", "dijkstra_path", "floyd_warshall_path", "bellman_ford_path", "astar", "astar (admissible, inconsistent heuristic)", "bellman_ford_negative", "connected_components",
                    "strongly_connected_components", "counts / is_dag", "topological_sort", "kruskal", "prim (default and every start)", "max_flow = min cut + capacities + conservation",
                    "bfs", "bfs_layers", "dfs", "triangles", "articulation_points", "bridges", "kcore", "pagerank distribution"])
     rep.assumptions += ["the algorithms' results are recorded by the harness and judged by TLC against GraphAlgo.tla's definitions (certificates: ties and alternative optima are accepted)",
